@@ -27,6 +27,7 @@ class RunState(object):
         self.recs = 0            # number of Rec executions (crash points)
         self.crash_rec = None    # (global rec index, kind): raise inside that Rec execution
         self.crashed_in = None
+        self.cap = None          # store time from which every send is forced to ABORT
 
     def add(self, *ev):
         self.seq += 1
@@ -78,6 +79,8 @@ class ProbeRunner(object):
     def send(self, control):
         st = self.st
         t = self.tasker
+        if st.cap is not None and t.store.stamp >= st.cap:
+            control = 3   # ABORT: past the run's tick cap every control is forced to abort so that the run ends
         st.add(t.store.stamp, "send", t.name, control)
         try:
             status = self.inner.send(control)
@@ -109,7 +112,27 @@ class Result(object):
     pass
 
 
-def run_script(script, period=0.125, env_table=None, crash_rec=None, real=False, simtime=None, stamp=0.0, after_build=None):
+def _wrap_fiats(house, st):
+    """Records the return value of every fiat action (ready/start/run/stop/abort of a slave)."""
+    from ioflo.base import fiating
+    names = {"FiatReady": "ready", "FiatStart": "start", "FiatRun": "run", "FiatStop": "stop", "FiatAbort": "abort"}
+    for fr in house.framers:
+        for frame in fr.frameNames.values():
+            for lst in (frame.beacts, frame.enacts, frame.renacts, frame.reacts, frame.preacts, frame.exacts, frame.rexacts):
+                for act in lst:
+                    actor = getattr(act, "actor", None)
+                    if isinstance(actor, fiating.Fiat) and not getattr(actor, "_verif_wrapped", False):
+                        def make(actor, inner):
+                            def action(**kw):
+                                r = inner(**kw)
+                                st.add(actor.store.stamp, "fiat", names.get(type(actor).__name__, type(actor).__name__), kw["tasker"].name, r)
+                                return r
+                            return action
+                        actor.action = make(actor, actor.action)
+                        actor._verif_wrapped = True
+
+
+def run_script(script, period=0.125, env_table=None, crash_rec=None, real=False, simtime=None, stamp=0.0, after_build=None, cap=None):
     """Builds and runs one FloScript program.  Returns a Result with .trace, .built, .exc, .house ..."""
     from ioflo.base import building, skedding
     from ioflo.aid.consoling import getConsole
@@ -118,6 +141,7 @@ def run_script(script, period=0.125, env_table=None, crash_rec=None, real=False,
     st = RunState()
     st.env_table = env_table or {}
     st.crash_rec = crash_rec
+    st.cap = cap
     _STATE["run"] = st
     had_open = "open" in building.__dict__
     old_open = building.__dict__.get("open")
@@ -157,6 +181,7 @@ def run_script(script, period=0.125, env_table=None, crash_rec=None, real=False,
                 continue
             seen.add(id(t))
             t.runner = ProbeRunner(t, t.runner, st, snapshot)
+        _wrap_fiats(house, st)
         if after_build is not None:
             after_build(res)
         try:
